@@ -5,6 +5,7 @@ import (
 	"errors"
 	"flag"
 	"fmt"
+	"math"
 	"runtime"
 	"strconv"
 	"strings"
@@ -56,6 +57,9 @@ type rpBehaviour struct {
 	Retained []int     `json:"retained"`
 	Dropped  []int     `json:"dropped"`
 	Shape    rpShape   `json:"shape"`
+	// EmptyAt (manual IDs; chosen by the driver, kept in replay files): the put whose ID is the set-but-empty ID("") -
+	// a valid ID that must not be confused with an unset Last-Event-ID
+	EmptyAt int `json:"emptyAt,omitempty"`
 }
 
 var rpBase = time.Unix(1_700_000_000, 0)
@@ -114,7 +118,12 @@ type rpRun struct {
 	problems []string
 }
 
-func (b *rpBehaviour) manualID(k int) string { return "m" + strconv.Itoa(k) }
+func (b *rpBehaviour) manualID(k int) string {
+	if k == b.EmptyAt {
+		return ""
+	}
+	return "m" + strconv.Itoa(k)
+}
 
 func (b *rpBehaviour) idOfPut(k int) string {
 	if b.Auto {
@@ -133,7 +142,11 @@ func newRun(b *rpBehaviour, withFin bool) (*rpRun, error) {
 		}
 		r.rep = fr
 	case "valid":
-		vr, err := sse.NewValidReplayer(time.Duration(b.TTL)*rpUnit, b.Auto)
+		ttl := time.Duration(b.TTL) * rpUnit
+		if b.TTL >= 1000000 {
+			ttl = time.Duration(math.MaxInt64) // "keep everything"
+		}
+		vr, err := sse.NewValidReplayer(ttl, b.Auto)
 		if err != nil {
 			return nil, err
 		}
@@ -307,6 +320,9 @@ func (r *rpRun) checkProbes(res *Result, faults bool) {
 	b := r.b
 	okey := opsKey(b)
 	for pi, p := range b.Probes {
+		if b.EmptyAt > 0 && p.Lid.Kind == "lit" && p.Lid.S == "" {
+			continue // here "" is the ID of put EmptyAt, probed as such
+		}
 		w, ks, err, pn := r.replay(p, 0, false)
 		res.eval(1)
 		cls := lidClass(b, p, r.nput)
@@ -436,6 +452,9 @@ func cmdReplay(args []string) {
 		var b rpBehaviour
 		if err := json.Unmarshal(line, &b); err != nil {
 			fatal("bad behaviour line %d: %v", idx, err)
+		}
+		if !b.Auto && b.EmptyAt == 0 && idx%2 == 1 {
+			b.EmptyAt = 1 + (idx/2)%3
 		}
 		r, err := runHistory(&b, false)
 		if err != nil {
